@@ -110,7 +110,7 @@ fn ski_of(c: &x509::Cert) -> Option<Vec<u8>> {
 /// Replaces the last arc of the custom attribute types and otherName type-ids of `spec` (subject,
 /// alternative names, directoryName subtrees) by arcs from the whole u64 range, boundaries of the
 /// base-128 encoding included.
-fn widen_arcs(spec: &mut CertSpec, wide: &[u64]) {
+pub fn widen_arcs(spec: &mut CertSpec, wide: &[u64]) {
 	if wide.is_empty() {
 		return;
 	}
@@ -151,7 +151,7 @@ fn widen_arcs(spec: &mut CertSpec, wide: &[u64]) {
 	}
 }
 
-fn wide_arc() -> impl Strategy<Value = u64> {
+pub fn wide_arc() -> impl Strategy<Value = u64> {
 	prop_oneof![
 		3 => prop::sample::select(vec![(1u64 << 56) - 1, 1 << 56, (1 << 57) - 1, 1 << 57, (1 << 62) + 5, (1 << 63) - 1, 1 << 63, (1 << 63) + 1, u64::MAX - 1, u64::MAX]),
 		2 => any::<u64>(),
